@@ -115,13 +115,14 @@ Cases(V, maxn, Scales, StScales) ==
 (* the physical range includes negative values (time deltas) and zero *)
 (* ... and values whose spread is tiny compared with their size (a thin layer high up): 10000, 10000.01, 10000.05, 10001 *)
 FarVals == {R(10000), <<1000001, 100>>, <<200001, 20>>, R(10001), NaN}
-CaseSet == IF IOEnv.TIER = "quick" THEN Cases({R(-60), R(-15), R(0), R(7), <<61, 2>>, R(60), NaN}, 3, {1, 2, 5}, {1, 5}) \cup Cases(FarVals, 3, {1, 5}, {1, 5})
+(* parameterised: TLC evaluates every constant-level definition without parameters when it starts, in the judging runs too *)
+CaseSet(tier) == IF tier = "quick" THEN Cases({R(-60), R(-15), R(0), R(7), <<61, 2>>, R(60), NaN}, 3, {1, 2, 5}, {1, 2, 5}) \cup Cases(FarVals, 3, {1, 5}, {1, 5})
            ELSE Cases({R(-60), R(-15), R(0), R(7), <<61, 2>>, R(30), R(60), NaN}, 4, {1, 2, 5, 1000}, {1, 2, 5, 1000}) \cup Cases(FarVals, 4, {1, 5, 1000}, {1, 5})
 
 (* ---- jobs ---- *)
 VARIABLES job, done
 Report(name, S) == PrintT(<<"R", name, S>>)
-Export == JsonSerialize(IOEnv.OUT_DIR \o "/cases.json", SetToSeq({c \in CaseSet : InDomain(c)}))
+Export(tier, dir) == JsonSerialize(dir \o "/cases.json", SetToSeq({c \in CaseSet(tier) : InDomain(c)}))
 (* a recorded case: [c, ok, exc, ys, zs (undo, as rationals), ysn (values obtained without the NaN entries, re-aligned)] *)
 Judge ==
   LET C == job.cases  K == DOMAIN C  OK == {j \in K : C[j].ok} IN
@@ -137,6 +138,6 @@ Judge ==
   /\ Report("I_Strict", {j \in OK : ~P_Strict(C[j].c.xs, C[j].ys)})
   /\ Report("I_Do", {j \in OK : ~SameSeq(C[j].ys, Do(C[j].c))})
 Init == job = (IF IOEnv.MODE = "export" THEN [cases |-> <<>>] ELSE JsonDeserialize(IOEnv.JOB_FILE)) /\ done = FALSE
-Next == ~done /\ done' = TRUE /\ job' = job /\ (IF IOEnv.MODE = "export" THEN Export ELSE Judge)
+Next == ~done /\ done' = TRUE /\ job' = job /\ (IF IOEnv.MODE = "export" THEN Export(IOEnv.TIER, IOEnv.OUT_DIR) ELSE Judge)
 Spec == Init /\ [][Next]_<<job, done>>
 =============================================================================
